@@ -834,6 +834,54 @@ pub fn drive_c16(a: &Args) {
             }
         }
     }
+    // two interior rigid runs: v = w1 . all . w2 . all . w3 . all . w4 (the runs w2, w3 may overlap in u)
+    {
+        let letters = [pool.a, pool.b];
+        let mut words: Vec<Vec<u32>> = vec![vec![]];
+        let mut fr: Vec<Vec<u32>> = vec![vec![]];
+        for _ in 0..4 {
+            let mut nx = vec![];
+            for w in &fr {
+                for &c in &letters {
+                    let mut x = w.clone();
+                    x.push(c);
+                    nx.push(x);
+                }
+            }
+            words.extend(nx.iter().cloned());
+            fr = nx;
+        }
+        let edge: Vec<&Vec<u32>> = words.iter().filter(|w| w.len() <= 1).collect();
+        let runs: Vec<&Vec<u32>> = words.iter().filter(|w| w.len() == 1 || w.len() == 2).collect();
+        let chars = |w: &Vec<u32>| -> Vec<T> { w.iter().map(|&c| T::Chr(c)).collect() };
+        let mk = |parts: Vec<T>| -> T {
+            if parts.is_empty() { T::Eps } else if parts.len() == 1 { parts[0].clone() } else { T::CatL(parts) }
+        };
+        let mut k = 0usize;
+        for w1 in &edge {
+            for w2 in &runs {
+                for w3 in &runs {
+                    for w4 in &edge {
+                        let mut v = chars(w1);
+                        v.push(T::All);
+                        v.extend(chars(w2));
+                        v.push(T::All);
+                        v.extend(chars(w3));
+                        v.push(T::All);
+                        v.extend(chars(w4));
+                        let vt = mk(v);
+                        for u in &words {
+                            k += 1;
+                            if !a.thorough() && k % 3 != (a.seed as usize) % 3 {
+                                continue;
+                            }
+                            pairs.push((mk(chars(u)), vt.clone(), "two-rigid-runs"));
+                        }
+                    }
+                }
+            }
+        }
+    }
     // sub-term pairs of random programs
     for _ in 0..a.sz(150, 2500) {
         let t = random_term(&mut rng, 3, &pool);
